@@ -35,16 +35,16 @@ namespace XALAN_CPP_NAMESPACE {
 double
 XalanMatchPatternData::getPriorityOrDefault() const
 {
-    const double    templatePriority =
-        m_template->getPriority();
-
-    if (DoubleSupport::isNegativeInfinity(templatePriority) == true)
+    // An explicit priority can be any number, negative infinity included
+    // (a value with enough digits overflows to it), so ask the template
+    // whether it has a priority attribute at all.
+    if (m_template->hasPriority() == false)
     {
         return XPath::getMatchScoreValue(m_priority);
     }
     else
     {
-        return templatePriority;
+        return m_template->getPriority();
     }
 }
 
